@@ -22,6 +22,7 @@ Suppressions:
 """
 
 import ast
+from collections.abc import Iterator
 from dataclasses import dataclass
 
 from .constants import STRING_VARIABLE_PATTERNS
@@ -76,7 +77,9 @@ class PythonStringConcatAnalyzer:
         Args:
             tree: AST to analyze
         """
-        for node in ast.walk(tree):
+        # Names are local to the function that assigns them: `result = []` in one function says
+        # nothing about `result` in another (each function is classified when it is entered)
+        for node in _scope_nodes(tree):
             self._process_assignment_node(node)
 
     def _process_assignment_node(self, node: ast.AST) -> None:
@@ -156,6 +159,10 @@ class PythonStringConcatAnalyzer:
         if reset_vars is None:
             reset_vars = set()
 
+        if isinstance(node, (ast.FunctionDef, ast.AsyncFunctionDef)):
+            self._find_concat_in_function(node, violations)
+            return
+
         # When entering a new loop, find variables reset in its body
         loop_type = self._get_loop_type(node)
         current_loop: str | None
@@ -179,6 +186,18 @@ class PythonStringConcatAnalyzer:
 
         if loop_type:
             self._loop_lines.pop()
+
+    def _find_concat_in_function(
+        self, node: ast.FunctionDef | ast.AsyncFunctionDef, violations: list[StringConcatViolation]
+    ) -> None:
+        """Analyse a function body with the variable classification of that function alone."""
+        saved = (self._string_variables, self._non_string_variables, self._loop_lines)
+        self._string_variables, self._non_string_variables, self._loop_lines = set(), set(), []
+        for inner in _scope_nodes(node):
+            self._process_assignment_node(inner)
+        for child in ast.iter_child_nodes(node):
+            self._find_concat_in_loops(child, violations)
+        self._string_variables, self._non_string_variables, self._loop_lines = saved
 
     def _get_loop_type(self, node: ast.AST) -> str | None:
         """Get the loop type if node is a loop, else None."""
@@ -373,3 +392,13 @@ class PythonStringConcatAnalyzer:
                 result.append(v)
 
         return result
+
+
+def _scope_nodes(scope: ast.AST) -> Iterator[ast.AST]:
+    """Yield the nodes of one scope: nested function definitions are scopes of their own."""
+    stack = list(ast.iter_child_nodes(scope))
+    while stack:
+        node = stack.pop()
+        yield node
+        if not isinstance(node, (ast.FunctionDef, ast.AsyncFunctionDef)):
+            stack.extend(ast.iter_child_nodes(node))
